@@ -302,9 +302,18 @@ fn h2_cases() -> Vec<Case> {
     ]
 }
 
+/// Every `fc` line produced so far, in the order produced: what the watchdog prints when the
+/// run does not come to an end (a server that stopped answering makes every later probe wait
+/// for its timeout).
+static FC_SO_FAR: Mutex<Vec<String>> = Mutex::new(Vec::new());
+
 fn fc_line(rt: &tokio::runtime::Runtime, id: &str, mode: HandlerTaskMode, case: &Case, recv: &[u8]) -> String {
     let rr = if case.kind.trim_start_matches("tls-").starts_with("h2-") { h2_verdict(recv) } else { reader_verdict(rt, recv) };
-    format!("fc {} {} {} {} => {} rr={}", id, mode_name(mode), case.kind, case.sent.enc(), hex(recv), rr)
+    let line = format!("fc {} {} {} {} => {} rr={}", id, mode_name(mode), case.kind, case.sent.enc(), hex(recv), rr);
+    if let Ok(mut all) = FC_SO_FAR.lock() {
+        all.push(line.clone());
+    }
+    line
 }
 
 fn random_case(rng: &mut Rng) -> Case {
@@ -485,6 +494,23 @@ fn corpus(thorough: bool) -> Vec<Case> {
         cs.push(refused(&format!("handler-{}", code), get_close(&format!("/fail/{}", code))));
     }
     cs.push(refused("bad-pct-path", get_close("/w/%zz")));
+    // a typed JSON body under odd spellings of its content type: a trailing semicolon, empty
+    // and valueless parameters, blanks (whatever the answer - accepted or refused - it comes
+    // at once, and the server goes on answering: each is sent on several connections)
+    for ct in [
+        "application/json", "application/json;", "application/json; x", "application/json;;charset=utf-8",
+        "application/json; ", "application/json ;charset=utf-8", "application/json;charset", "application/json;=",
+        "application/json; charset=utf-8;", "application/json;\t", "application/json;;;;",
+    ] {
+        for _ in 0..3 {
+            cs.push(Case {
+                kind: "answered-typed-ct".into(),
+                fault: None,
+                sent: Sent::raw(&build_request("POST", "/typed", &[CLOSE, ("content-type", ct)], b"{\"n\": 7}")),
+                end: End::Wait,
+            });
+        }
+    }
     // abrupt close at every stage, every way, without reading
     for how in How::ALL {
         for (n, v) in &valid {
@@ -1130,6 +1156,35 @@ fn main() {
             };
             results.lock().unwrap()[i] = Some(lines);
         }));
+    }
+    // watchdog: a run that does not end (a wedged server makes every probe wait out its
+    // timeout) is cut short - the lines produced so far go out, followed by one failed
+    // sequence per job that was still in progress
+    {
+        let (jobs, next, results) = (jobs.clone(), next.clone(), results.clone());
+        let limit = Duration::from_secs(if thorough { 1500 } else { 420 });
+        std::thread::spawn(move || {
+            std::thread::sleep(limit);
+            let mut out = std::io::BufWriter::with_capacity(1 << 20, std::io::stdout());
+            if let Ok(all) = FC_SO_FAR.lock() {
+                for l in all.iter() {
+                    let _ = writeln!(out, "{}", l);
+                }
+            }
+            let started = next.load(Ordering::SeqCst).min(jobs.len());
+            let done: Vec<bool> = results.lock().map(|r| r.iter().map(|x| x.is_some()).collect()).unwrap_or_default();
+            for i in 0..started {
+                if !done.get(i).copied().unwrap_or(false) {
+                    let (jid, jmode) = match &jobs[i] {
+                        Job::Plain(id, m, _, _) | Job::Tls(id, m, _, _) => (id.clone(), *m),
+                    };
+                    let _ = writeln!(out, "seq {} {} n=1 F1:disc,H0 => health=0 closed=0 unconnected=0", jid, mode_name(jmode));
+                }
+            }
+            let _ = out.flush();
+            eprintln!("c18: watchdog: the run did not end within {:?}", limit);
+            std::process::exit(0);
+        });
     }
     for w in ws {
         w.join().unwrap();
